@@ -7,7 +7,9 @@ from harness import core, py2lean, instantiate
 from harness.core import Outcome, f2b, b2f
 
 ID = "C05"
-LEAN_TARGETS = ["BeyondVerif.Props.C05", "BeyondVerif.Lemmas.TwoBody", "BeyondVerif.Lemmas.NewtonKepler"]
+LEAN_TARGETS = ["BeyondVerif.Props.C05", "BeyondVerif.Props.C05Cart", "BeyondVerif.Props.C05Term", "BeyondVerif.Props.C05Universal",
+                "BeyondVerif.Lemmas.TwoBody", "BeyondVerif.Lemmas.TwoBodyHyp", "BeyondVerif.Lemmas.TwoBody3D", "BeyondVerif.Lemmas.PropagCart",
+                "BeyondVerif.Lemmas.NewtonKepler", "BeyondVerif.Lemmas.NewtonKeplerApogee", "BeyondVerif.Lemmas.NewtonHyp", "BeyondVerif.Lemmas.Universal"]
 THEOREMS = [
     "BeyondVerif.C05.meanMotion_formula",
     "BeyondVerif.C05.kepler_elements_constant",
@@ -21,6 +23,14 @@ THEOREMS = [
     "BeyondVerif.C05.kepler_equation_equivariant",
     "BeyondVerif.C05.hyperbolic_kepler_equation_solution_unique",
     "BeyondVerif.C05.kepler_solves_two_body",
+    "BeyondVerif.C05.kepler_solves_two_body_hyperbolic",
+    "BeyondVerif.C05.meanToCart_eq_cartOf",
+    "BeyondVerif.C05.kepler_solves_two_body_cartesian",
+    "BeyondVerif.C05.kepler_solves_two_body_cartesian_hyperbolic",
+    "BeyondVerif.C05.cartOf_invariants_elliptic",
+    "BeyondVerif.C05.cartOf_invariants_hyperbolic",
+    "BeyondVerif.C05.kepler_is_universal_variable_solution",
+    "BeyondVerif.C05.kepler_is_universal_variable_solution_hyperbolic",
     "BeyondVerif.C05.deltaT_eq",
     "BeyondVerif.C05.deltaT_telescope",
     "BeyondVerif.C05.subDate_inst",
@@ -48,6 +58,19 @@ THEOREMS = [
     "BeyondVerif.C05.loop_returns",
     "BeyondVerif.C05.kpM2eLoop_neg",
     "BeyondVerif.C05.kepler_m2e_terminates_partial",
+    "BeyondVerif.C05.loop_returns_gen",
+    "BeyondVerif.C05.kepler_m2e_terminates",
+    "BeyondVerif.C05.m2e_loop_residual_hyperbolic",
+    "BeyondVerif.C05.kepler_anomaly_residual_hyperbolic",
+    "BeyondVerif.C05.kepler_m2e_terminates_hyperbolic",
+    "BeyondVerif.C05.kepler_propagation_returns",
+    "BeyondVerif.C05.kpM2e_shift",
+    "BeyondVerif.C05.meanToCart_shiftM",
+    "BeyondVerif.C05.kepler_periodic_cartesian",
+    "BeyondVerif.C05.kepler_periodic_cartesian_then",
+    "BeyondVerif.C05.kepler_periodic_cartesian_in_out",
+    "BeyondVerif.C05.kepler_periodic_cartesian_in_out_then",
+    "BeyondVerif.C05.j2_outside_domain_hyperbolic",
     "BeyondVerif.C05.kepler_cart_compose",
     "BeyondVerif.C05.kepler_cart_inverse",
     "BeyondVerif.C05.kepler_cart_periodic",
@@ -239,7 +262,10 @@ def to_cart_chain(tree):
              py2lean.indent(out["startE"], 4) + "\n  else\n" + py2lean.indent(out["startH"], 4) + "\n",
              "/-- `next_E` / `next_H` of `Form.M2E` -/\ndef kpM2eNext (X e M : R) : R :=\n  if " + test + " then " + out["nextE"] + "\n  else " + out["nextH"] + "\n",
              "/-- the `while` test of `Form.M2E` -/\ndef kpM2eContinue {α : Type} (X1 X : R) (yes no : α) : α :=\n  if (absR (X1 - X)) ≥ kpM2eTol then yes else no\n"]
-    for py, ln in (("_keplerian_eccentric_to_keplerian", "kpEccToKepl"), ("_keplerian_to_cartesian", "kpKeplToCart")):
+    # the way out (`new.copy(form="cartesian")`) and the way in (the orbit setter on a cartesian orbit)
+    for py, ln in (("_keplerian_eccentric_to_keplerian", "kpEccToKepl"), ("_keplerian_to_cartesian", "kpKeplToCart"),
+                   ("_cartesian_to_keplerian", "kpCartToKepl"), ("_keplerian_to_keplerian_eccentric", "kpKeplToEcc"),
+                   ("_keplerian_eccentric_to_keplerian_mean", "kpEccToMean")):
         parts.append(f"/-- `Form.{py}` -/\n" + py2lean.translate_fn(FORMS_PY, "Form." + py, ln, vec_params={"coord": CARGS}, consts=MU_CONSTS,
                                                                    extra_args=["mu"], tree=tree, ret_type="List R"))
     return "\n".join(parts)
@@ -881,6 +907,7 @@ def correspondence(ctx):
         cases.append(("Kepler", conic, inp["mean_elements"], inp["form"], inp["frame"], inp["dt"], "slow-m2e", inp["m2e_passes"]))
     for inp in PINNED:
         cases.append(("Kepler", "ell", inp["mean_elements"], inp["form"], inp["frame"], inp["dt"], "pinned", None))
+    ncart = 0
     for prop, conic, elts, form, frame, dt, tag, passes in cases:
         orb, d0 = make(elts, form, frame, prop)
         date = d0 + timedelta(seconds=dt)
@@ -901,6 +928,23 @@ def correspondence(ctx):
             out.tally("m2e-passes=" + ("<=20" if passes <= 20 else "21-50" if passes <= 50 else "51-100" if passes <= 100 else ">100"))
         if abs(dt_code - dt) > 1e-9:
             out.fail("date-difference", "(date - orbit.date).total_seconds() differs from the requested interval", {"dt": dt}, observed=dt_code, expected=dt)
+        # the whole of Orbit.propagate on a CARTESIAN orbit in the model: the setter's way in (cartesian -> keplerian -> eccentric ->
+        # mean, translated from forms.py), the update, the way out.  Every cartesian case, and every third of the others rebuilt in
+        # cartesian form.
+        ncart += 1
+        if not isinstance(impl, str) and (form == "cartesian" or ncart % 3 == 0):
+            try:
+                with _quiet(), time_limit():
+                    orbc = orb if form == "cartesian" else make(elts, "cartesian", frame, prop)[0]
+                    implc = impl if form == "cartesian" else [float(v) for v in orbc.propagate(date)]
+                    xc = mean_of(orbc)
+                c0 = [float(v) for v in orbc]
+                reqs.append(" ".join(["propc", prop.lower(), f2b(mu)] + [f2b(v) for v in c0] + [f2b(dt_code)]))
+                meta.append(("propc", implc, (n, dt_code, conic, xc), {"propagator": prop, "form": "cartesian", "frame": frame, "mean_elements": elts, "dt": dt,
+                                                                   "class": tag, "cartesian": c0}))
+                out.count(key=reqs[-1], nontrivial=dt != 0, kind=f"cartesian-in-out-{prop}-{conic}", cls=tag)
+            except NoReturn:
+                out.tally("cartesian-in-out=no-return (skipped)")
     # histories on one Orbit object / one propagator object, and single propagations with the dates handed in as `Date`s
     # (epoch and target in every pair of scales, every Earth-orientation environment): the model computes the span from the dates
     hists = [(gen_history_input(rng, "Kepler" if k % 3 != 2 else "J2", k), "history") for k in range(ctx.n(250, 4000))]
@@ -942,6 +986,46 @@ def correspondence(ctx):
                 model = [b2f(x) for x in rep.split()]
                 if not all(core.close(x, y, rtol=1e-12, atol=1e-15) for x, y in zip(impl, model)):
                     out.fail("c05-sso", "cos(leo.sso(a, e)) differs from the translated formula", inp, observed=impl, expected=model)
+                continue
+            if kind == "propc":
+                n, dt, conic, xc = aux
+                parts = rep.split("|")
+                mel = [b2f(x) for x in parts[0].split()]
+                mcart = parse_cart(parts[1]) if len(parts) > 1 else "bad-op"
+                if len(mel) != 6:
+                    out.fail("c05-cartesian-in-out-shape", "the model's orbit setter did not return six elements", inp, observed=xc, expected=rep[:80])
+                    continue
+                # the setter: mean elements from the cartesian coordinates (angles mod 2 pi; conditioning of the element set)
+                if finite(xc) and finite(mel):
+                    e = xc[1]
+                    cond = 1 / min(e, abs(e - 1), 1.0) if e > 0 else 1e16
+                    si = max(abs(math.sin(xc[2])), 1e-12)
+                    bad = None
+                    if abs(mel[0] / xc[0] - 1) > 1e-9 * cond: bad = "a"
+                    elif abs(mel[1] - xc[1]) > 1e-9 * max(1, e) * cond: bad = "e"
+                    elif abs(mel[2] - xc[2]) > 1e-9 / si: bad = "i"
+                    elif angdiff(mel[3], xc[3]) > 1e-9 / si: bad = "raan"
+                    elif angdiff(mel[4], xc[4]) > 1e-9 * cond / min(e, 1.0) / si: bad = "argp"
+                    elif (angdiff(mel[5], xc[5]) if conic == "ell" else abs(mel[5] - xc[5]) / max(1.0, abs(xc[5]))) > 1e-9 * cond / min(e, 1.0) / si: bad = "M"
+                    if bad:
+                        out.fail(f"c05-setter-{bad}-{conic}", f"element {bad} computed by the orbit setter from a cartesian orbit differs from the Lean model "
+                                 "(cartesian -> keplerian -> eccentric -> mean translated from forms.py)", inp, observed=xc, expected=mel)
+                        continue
+                elif finite(xc) != finite(mel):
+                    out.fail("c05-setter-finiteness", "one of implementation / model computes non-finite mean elements from the cartesian orbit", inp, observed=xc, expected=mel)
+                    continue
+                if not isinstance(mcart, list):
+                    if finite(impl):
+                        out.fail(f"c05-cartesian-in-out-fuel", "the model's M2E loop did not exit within 10^4 passes", inp, observed=impl, expected=mcart)
+                    continue
+                if finite(impl) != finite(mcart):
+                    out.fail(f"c05-cartesian-in-out-finiteness", "one of implementation / model is non-finite", inp, observed=impl, expected=mcart)
+                    continue
+                if finite(impl):
+                    bad = cart_differs(impl, mcart, 1e-9 * (1 + (n * abs(dt) if math.isfinite(n) else 0)))
+                    if bad:
+                        out.fail(f"c05-cartesian-in-out-{inp['propagator']}-{conic}", f"component {bad[0]} of Orbit.propagate on a cartesian orbit differs from the Lean model of the whole "
+                                 "call (setter: cartesian -> mean; update; mean -> cartesian)", inp, observed=impl, expected=mcart)
                 continue
             if kind == "hist":
                 fields = [t.strip() for t in rep.split("|")] if rep.strip() else []
